@@ -13,10 +13,17 @@
  *
  * Script (stdin), one command per line:
  *   reset <dev> <undo> <ngran>          new device file with original content, undo file removed
- *   open <off_bytes> <tdb_bytes>        undo open (+ tdb_data_size / offset options when non-zero)
+ *   open <off_bytes> <tdb_bytes>        undo open (+ tdb_data_size / offset options when non-zero); the cache of the backing
+ *                                       manager is switched off ("cache=off" reaches unix_io through undo_set_option): the
+ *                                       histories use undo blocks of 2 and 4 channel blocks as scaled-down stand-ins for the
+ *                                       ratios of the tools (1, or 8 and more: such reads bypass the cache, WRITE_DIRECT_SIZE),
+ *                                       and unix_io would split a read of 2-4 blocks at a cached block
+ *   cache on|off                        switch it (on: to show what the split does to a short read, replays/C12/latent_*)
  *   blk <bytes>                         io_channel_set_blksize
  *   wblk <block> <count>                io_channel_write_blk64 (count < 0: bytes)
  *   wbyte <offset> <size>               io_channel_write_byte
+ *   rblk <block> <count>                io_channel_read_blk64 (what is read is not logged: the line says that a read happened,
+ *                                       which leaves the blocks in the cache of the backing manager)
  *   zero|disc <block> <count>           io_channel_zeroout / io_channel_discard (after io_channel_flush)
  *   close <finished>                    io_channel_close; finished = 0 sets UNDO_IO_SIMULATE_UNFINISHED
  *   flip hdr|sb|key|data|raw <k> <i>    flip bit i of the checksummed bytes of the header / superblock copy / k-th key
@@ -326,6 +333,7 @@ int main(void)
 			chan = NULL;
 			rv = undo_io_manager->open(devpath, IO_FLAG_RW, &chan);
 			if (rv) chan = NULL;
+			if (!rv) rv = io_channel_set_options(chan, "cache=off");
 			if (!rv && b) { sprintf(opt, "tdb_data_size=%lld", b); rv = io_channel_set_options(chan, opt); }
 			if (!rv && a) { sprintf(opt, "offset=%lld", a); rv = io_channel_set_options(chan, opt); }
 			fsoff = a;
@@ -353,6 +361,20 @@ int main(void)
 				line_end(o, "wneg", a, ((lo + len + G - 1) / G) - lo / G, rv, 0);
 			else
 				line_end(o, "wblk", a, b, rv, 0);
+		} else if (!strcmp(cmd, "cache")) {
+			s1[0] = 0;
+			sscanf(line, "%*s %63s", s1);
+			if (!chan) { line_end(o, "nochan", 0, 0, 1, 0); continue; }
+			rv = io_channel_set_options(chan, !strcmp(s1, "on") ? "cache=on" : "cache=off");
+			line_end(o, "cache", !strcmp(s1, "on"), 0, rv, 0);
+		} else if (!strcmp(cmd, "rblk")) {
+			unsigned char *buf;
+			sscanf(line, "%*s %lld %lld", &a, &b);
+			if (!chan) { line_end(o, "nochan", 0, 0, 1, 0); continue; }
+			buf = malloc((b < 0 ? -b : b * chan->block_size) + CH);
+			rv = io_channel_read_blk64(chan, a, b, buf);
+			free(buf);
+			line_end(o, "rblk", a, b, rv, 0);
 		} else if (!strcmp(cmd, "wbyte")) {
 			unsigned char *buf;
 			sscanf(line, "%*s %lld %lld", &a, &b);
